@@ -235,7 +235,7 @@ func swapSync(name string, src []byte, heapqFrom string) []byte {
 				return true
 			}
 			switch se.Sel.Name {
-			case "Mutex", "RWMutex", "Pool":
+			case "Mutex", "RWMutex", "Pool", "Cond", "Once", "NewCond":
 				edits = append(edits, edit{off(id.Pos()), off(id.End()), "simsync"})
 				swapped++
 				rep.Rewrites["sync."+se.Sel.Name]++
